@@ -13,6 +13,10 @@ import (
 	"verif/harness/vk"
 )
 
+var keepResult func(func() string)
+
+func init() { keepResult = checker.Keep }
+
 func TestMain(m *testing.M) { vk.Main(m, "C14") }
 
 type Case struct {
@@ -83,6 +87,27 @@ func checkJoin(keep []uint64, w int32) (f *vk.Failure) {
 			return vk.Failf("join-mutates", "Join modified values[%d]", i)
 		}
 	}
+	// the result belongs to the caller: overwriting it (and its spare capacity) must not reach the argument,
+	// and it must still read the same after later calls
+	expect := append([]uint64(nil), r...)
+	for i := range r {
+		r[i] = ^r[i]
+	}
+	vk.ScribbleU64(r)
+	for i := range keep {
+		if keep[i] != values[i] {
+			return vk.Failf("join-result-aliases-argument", "overwriting the result of Join(%d values, w=%d) changed values[%d]: the result shares memory with the argument", len(keep), w, i)
+		}
+	}
+	copy(r, expect)
+	keepResult(func() string {
+		for i := range expect {
+			if r[i] != expect[i] {
+				return fmt.Sprintf("Join(%d values, w=%d): word %d was %#x, now %#x", len(keep), w, i, expect[i], r[i])
+			}
+		}
+		return ""
+	})
 	return nil
 }
 
@@ -145,6 +170,25 @@ func checkSlice(keep []uint64, from, to int32) (f *vk.Failure) {
 			return vk.Failf("slice-mutates", "Slice modified input word %d", i)
 		}
 	}
+	expect := append([]uint64(nil), r...)
+	for i := range r {
+		r[i] = ^r[i]
+	}
+	vk.ScribbleU64(r)
+	for i := range keep {
+		if keep[i] != words[i] {
+			return vk.Failf("slice-result-aliases-argument", "overwriting the result of Slice(bm, %d, %d) changed input word %d: the result shares memory with the argument", from, to, i)
+		}
+	}
+	copy(r, expect)
+	keepResult(func() string {
+		for i := range expect {
+			if r[i] != expect[i] {
+				return fmt.Sprintf("Slice(bm, %d, %d): word %d was %#x, now %#x", from, to, i, expect[i], r[i])
+			}
+		}
+		return ""
+	})
 	return nil
 }
 
